@@ -22,8 +22,8 @@ EXTENDS Fit
 
 CONSTANTS Runs    \* sequence of recorded runs (see the driver for the record layout)
 
-VARIABLES rid, k, tv
-tvars == <<cfg, phase, ialts, cp, cm, evs, popt, iends, cend, disc, rid, k, tv>>
+VARIABLES rid, run, k, tv     \* run = Runs[rid] (kept in the state: TLC re-evaluates a substituted constant)
+tvars == <<cfg, phase, ialts, cp, cm, evs, popt, iends, cend, disc, rid, run, k, tv>>
 
 FxB   == 268435456        \* 2^28
 FxTol == 16               \* 16 * 2^-44 = 9.1e-13
@@ -37,7 +37,7 @@ FxSame(a, b)  == LET d == FxMinus(a, b)
 FxNoTPL(a, b) == Assert(FALSE, "TPL classes are not trace validated")
 
 -----------------------------------------------------------------------------
-R == Runs[rid]
+R == run
 
 B2N(b) == IF b THEN 1 ELSE 0
 Arity(c, pp) == B2N(pp.para.var) + B2N(pp.para.len) + B2N(pp.para.nug) + B2N(pp.para.opt)
@@ -86,9 +86,10 @@ OnlyOpenEnds(c, pp, x) ==
 
 -----------------------------------------------------------------------------
 TInit ==
-  /\ rid \in DOMAIN Runs /\ k = 0
+  /\ \E rs \in {Runs} : rid \in DOMAIN rs /\ run = rs[rid]
+  /\ k = 0
   /\ tv = [impl |-> {}, ideal |-> {}, edge |-> {}]
-  /\ cfg = Runs[rid].cfg
+  /\ cfg = run.cfg
   /\ phase = "start" /\ ialts = {} /\ cp = CErr(cfg, "-") /\ cm = RawM(cfg, cfg.pre)
   /\ evs = <<>> /\ popt = cfg.pre /\ iends = {} /\ cend = CEndErr(cfg) /\ disc = {}
 
@@ -96,7 +97,7 @@ TInit ==
 TPre ==
   /\ phase = "start"
   /\ ialts' = IdealPre(cfg) /\ cp' = ImplPre(cfg) /\ cm' = cp'.m
-  /\ UNCHANGED <<cfg, evs, popt, iends, cend, disc, rid, k>>
+  /\ UNCHANGED <<cfg, evs, popt, iends, cend, disc, rid, run, k>>
   /\ IF R.called
      THEN IF cp'.st = "ready" /\ Arity(cfg, cp') = Len(R.lo)
           THEN /\ phase' = "ready"
@@ -104,7 +105,7 @@ TPre ==
                          ideal |-> IF \A q \in ialts' : q.st = "error" THEN {"error:missing"} ELSE {},
                          edge  |-> D("p0:outside-box", P0InBox)]
           ELSE /\ phase' = "done"
-               /\ tv' = [impl  |-> {"pre:status"},
+               /\ tv' = [impl  |-> IF cp'.st = "nofit" THEN {} ELSE {"pre:status"},
                          ideal |-> IF \A q \in ialts' : q.st = "error" THEN {"error:missing"} ELSE {},
                          edge  |-> IF \E q \in ialts' : q.st = "nofit" THEN {"nothing-to-fit"} ELSE {}]
      ELSE /\ phase' = "done"
@@ -127,7 +128,7 @@ TEval ==
                 /\ tv' = [tv EXCEPT !.impl = @ \cup PubDiff("eval:", Pub(cfg, cm'), e.after)
                                           \cup D("eval:inf", e.inf = Infeasible(cfg, cp, x))
                                           \cup D("eval:raise", ~SetterRaises(cfg, cp, x) \/ Infeasible(cfg, cp, x))]
-  /\ UNCHANGED <<cfg, phase, ialts, cp, evs, popt, iends, cend, disc, rid>>
+  /\ UNCHANGED <<cfg, phase, ialts, cp, evs, popt, iends, cend, disc, rid, run>>
 
 (* the end of the run *)
 RecEnd == [st |-> "ok",
@@ -137,7 +138,7 @@ RecEnd == [st |-> "ok",
 
 TFinish ==
   /\ phase = "ready" /\ k = Len(R.evals) /\ phase' = "done"
-  /\ UNCHANGED <<cfg, ialts, cp, cm, evs, rid, k>>
+  /\ UNCHANGED <<cfg, ialts, cp, cm, evs, rid, run, k>>
   /\ IF R.st = "ok"
      THEN LET x == VecOf(cfg, cp, R.popt) IN
           /\ popt' = x
